@@ -85,7 +85,13 @@ def check(acc, desc, order, repeat=False):
         acc.violation("ternary", "wrong-inputs", case, f"{sorted(t.inputs())} vs {sorted(want_inputs)}")
         return False
     # reference: Kleene on c
-    ref, fr, full = refsim.kleene_tables(c.graph, order=ins)
+    try:
+        ref, fr, full = refsim.kleene_tables(c.graph, order=ins)
+    except refsim.RefError:
+        # the ARGUMENT is not a well-formed circuit (only possible in 'twice', when the first application already
+        # went wrong - that is judged by the 'circuits' sub-space on the same circuit)
+        acc.outcome("argument-unevaluable")
+        return False
     k = 2 * len(ins)
     assign = {}
     for i, n in enumerate(ins):
